@@ -68,7 +68,7 @@ def strip_comments(src):
             i += 1
     return "".join(out)
 
-def proofs(pid):
+def proofs(pid, tier="quick"):
     """re-check the property file; returns dict(obligations, discharged, theorems, assumptions, ok, log)"""
     coq = os.path.join(ROOT, "coq")
     res = {"obligations": 0, "discharged": 0, "theorems": [], "assumptions": {}, "ok": False, "log": "", "gate": []}
@@ -101,6 +101,17 @@ def proofs(pid):
                           "closed": out.count("Closed under the global context")}
     res["discharged"] = len(thms) if not res["gate"] else 0
     res["ok"] = not res["gate"] and len(names) >= len(thms) and not (axioms - ALLOWED_AXIOMS)
+    if tier == "thorough" and res["ok"]:
+        # the independent checker re-checks the compiled property file and everything it depends on
+        import time
+        t0 = time.time()
+        rc, out = sh("timeout 3000 coqchk -silent -o -Q . Mast Mast.Properties.%s" % pid, cwd=coq, timeout=3100)
+        m = re.search(r"\* Axioms:\s*(.*?)\n\s*\n", out, re.S)
+        ax = m.group(1).strip() if m else "?"
+        unsafe = [l.strip() for l in out.split("\n") if l.strip().startswith("*") and "<none>" not in l and "Theory:" not in l and "Axioms:" not in l]
+        res["coqchk"] = {"ran": True, "exit": rc, "axioms": ax, "seconds": round(time.time() - t0), "other_flags": unsafe}
+        if rc or ax != "<none>" or unsafe:
+            res["ok"] = False; res["log"] += "\ncoqchk: " + out[-1500:]
     return res
 
 ALLOWED_AXIOMS = set()   # the development is axiom-free; anything printed here fails the check
